@@ -1399,7 +1399,8 @@ def c19(ctx):
 
 @prop('C17')
 def c17(ctx):
-    rule = ('(1) generated chains with Reorder\'d injectors and wrappers (profile "reorder", exact types only): the verified validators are run on '
+    rule = ('(0) S4: the Lean transcription of reorder.go, run on the model\'s own assembled list, must give exactly the order and the given-up set of the implementation\'s S4 dump; '
+            '(1) generated chains with Reorder\'d injectors and wrappers (profile "reorder"): the verified validators are run on '
             'the implementation\'s S3 -> S4 dumps (permutation; providers not marked Reorder keep their relative order; the list up to the invoke '
             'function untouched; nothing includable after the final function); the include/slot model is run on the order reorder chose (S5, S6) '
             'and the bound chain is executed by the Exec model and compared with the Spec (every executed provider receives its inputs per C01); '
@@ -1463,8 +1464,9 @@ def c17(ctx):
     ctx.cov['displacement_pairs'] = st['displace-same'] + st['displace-diff']
     ctx.cov['reorder_chains_validated'] = st['validated']
     ctx.cov['outcomes'] = dict(st)
-    ctx.assumptions += ['reorder.go itself (constraint graph, priority topological sort) is not transcribed into the model: its result is checked by verified validators on every run and the later stages are modelled on the order it chose',
-                        'Reorder with Loose/interface matching is documented as unsupported and not generated']
+    ctx.assumptions += ['reorder.go is transcribed (Nject/ReorderAlg.lean): Go maps used as sets are duplicate-free lists, container/heap is pop-minimum over a list, the loop of topo.run has fuel; the transcription must give exactly the order of the implementation\'s S4 dump on every generated chain (S4 correspondence)',
+                        'that the algorithm places a displaced injector correctly under C17\'s preconditions is decided per run (placement validator, displacement pairs), not proved',
+                        'Reorder with Loose/interface matching is documented as not playing well together; about 15% of the generated reorder chains use interfaces all the same']
     if len(ctx.violations) > 5:
         ctx.violations.sort(key=lambda v: not v[2]); ctx.violations = ctx.violations[:5]
     return finish(ctx, 'proof', ob, dis, details, rule)
